@@ -168,8 +168,8 @@ def run_shard(args):
         cmd = [HARNESS_BIN, "ack", "--polls", str(cases), "--out", prefix]
     elif mode == "pure":
         cmd = [HARNESS_BIN, "pure", "--seed", str(seed), "--out", prefix] + extra
-    elif mode == "locks":
-        cmd = [HARNESS_BIN, "locks", "--seed", str(seed), "--millis", str(cases), "--out", prefix]
+    elif mode in ("locks", "stress"):
+        cmd = [HARNESS_BIN, mode, "--seed", str(seed), "--millis", str(cases), "--out", prefix]
     else:
         cmd = [HARNESS_BIN, mode, "--seed", str(seed), "--cases", str(cases), "--profile", profile, "--out", prefix] + extra
     rc, out, dt = sh(cmd, timeout=900)
@@ -193,6 +193,11 @@ def replay_lines(lines, prefix):
                 subprocess.run([DRIVER], stdin=inf, stdout=mf, timeout=120)
             cases += trace.load_cases(sub + ".in", sub + ".impl", sub + ".model")
         return cases, 0
+    if any(l.startswith("S ") for l in lines):
+        sh([HARNESS_BIN, "stress", "--seed", "1", "--millis", "800", "--out", prefix], timeout=300)
+        with open(prefix + ".model", "w") as mf, open(prefix + ".in") as inf:
+            subprocess.run([DRIVER], stdin=inf, stdout=mf, timeout=300)
+        return trace.load_cases(prefix + ".in", prefix + ".impl", prefix + ".model"), 0
     if any(l.startswith("L ") for l in lines):
         sh([HARNESS_BIN, "locks", "--seed", "1", "--millis", "800", "--out", prefix], timeout=300)
         with open(prefix + ".model", "w") as mf, open(prefix + ".in") as inf:
@@ -344,7 +349,7 @@ def main(argv):
         jobs = []
         for (mode, profile, quick_n, thorough_n, extra) in plan.get("runs", []):
             total = thorough_n if thorough else quick_n
-            if mode in ("ack", "pure", "locks"):
+            if mode in ("ack", "pure", "locks", "stress"):
                 jobs.append((mode, profile, seed, total, os.path.join(workdir, f"{mode}_{profile}"), list(extra) + (["--thorough"] if thorough and mode == "pure" else [])))
                 continue
             per = max(1, min(40, total // 8 or 1))
@@ -451,7 +456,15 @@ def main(argv):
     if divergent:
         c = divergent[0]
         lines, shrunk = shrink(c, pid, None, workdir, budget_s=20 if not thorough else 90)
-        cases, _ = replay_lines(lines, os.path.join(workdir, "div"))
+        cases = []
+        for attempt in range(4):
+            cases, _ = replay_lines(lines, os.path.join(workdir, "div"))
+            if cases and case_fails(cases[0], pid, None):
+                break
+            cases = []
+        if not cases:
+            # the shrunk history does not replay deterministically (pool index, iteration order, seeds differ per run): keep the original
+            lines, shrunk, cases = c.input_lines(), False, [c]
         detail = {}
         found_input = None
         if cases:
